@@ -4,5 +4,7 @@ CONSTANTS
   MaxFR = 1
   MaxCalls = 2
   Algo = "refresh"
+  Queued = FALSE
+  Reload = TRUE
 PROPERTY Termination
 CHECK_DEADLOCK FALSE
